@@ -172,6 +172,9 @@ func c06Build(c *choice.Stream) *c06Case {
 		switch c.Draw("ht.shape", 5) {
 		case 0, 1:
 			w := wrappers[c.Draw("ht.wrapper", len(wrappers))]
+			if depth > 1000000 {
+				depth = ((1 << 25) - 64) / (len(w) + 1) // as deep as the string cap of the scratch copy lets this wrapper go
+			}
 			closing := depth
 			if c.Bool("ht.unbalanced", 1, 4) {
 				closing = c.Draw("ht.closing", depth+1)
